@@ -8,10 +8,10 @@ import GMGProofs.Props.C07c
   standard smoother (`C06d.*_matrix_spd_dirichlet`), the stored diagonal entries are positive, the innermost circle's matrix is
   the identity (all LU pivots are 1);
 * hence the sweep is total, satisfies `IsExSweep`, and returns the array of an exact discrete solution unchanged;
-* `Cycle.ExExactData` with the extrapolated smoother on level 0.
+* `MGCycle.ExExactData` with the extrapolated smoother on level 0.
 -/
 namespace Concrete
-open Stencil Scalar Cycle Smoother
+open Stencil Scalar MGCycle Smoother
 
 section Ordered
 variable {K : Type} [_root_.Field K] [LinearOrder K] [IsStrictOrderedRing K]
